@@ -73,14 +73,21 @@ CLAIMED = {
         "the C by correspondence on explored inputs only; libzstd's behaviour enters as a table computed by calling libzstd directly.",
    technique="Lean 4 proof (invariant over the loop's step function, lifted by induction over fuel and over the call sequence) + differential correspondence"),
  'C02': dict(
-   text="Partial proof (Lean 4): on the model of comp_read/zck_close — unit-decoded reads return only verified content of the declared size "
-        "(C15 theorem), a chunk end succeeds only with consistent sizes and a matching checksum, and close succeeds iff no error occurred "
-        "and the whole-data checksum of the consumed body matches (skipped under the uncompressed-source flag). The full implication "
-        "'success => output equals the reference decoder's' is evaluated (not proved) against an independent Lean reference decoder on "
-        "valid files and raw / re-sealed / truncated / swapped / re-checksummed mutants under many read schedules.",
-   design_ref="DESIGN.md section 7 C02",
-   note="Partial: completeness/order of the delivered content (every chunk exactly once, in order) is not a theorem; unzck's glue is not modelled.",
-   technique="Lean 4 proof (partial: local soundness lemmas + C15 invariant) + differential correspondence against an independent Lean reference decoder"),
+   text="Proof (Lean 4) on the model of comp_read / import_dict / zck_close, for an ARBITRARY file, codec and hash function: if open, any "
+        "sequence of reads (any buffer sizes) that all report success, a last read that comes up short, and close all succeed, then every "
+        "index entry is all there at its own extent of the file, hashes to its index checksum and decodes with the dictionary the format "
+        "prescribes to exactly its declared length, the data section hashes to the data checksum, and the bytes handed out are exactly the "
+        "contents of the data chunks in index order (stream_sound: one loop invariant kept by every iteration, call, dictionary import and "
+        "call sequence); restated against the INDEPENDENT reference decoder: Format.decodeAny's content function yields exactly those bytes "
+        "(stream_decodes, decodeAny_eq). Plus the C15 theorem (nothing unverified is released by unit-decoded reads) and close_iff. The "
+        "implementation is tied to the model by READSEQ runs on valid files and raw / re-sealed / truncated / swapped / re-checksummed "
+        "mutants, zstd frames without recorded content size and multi-frame chunks, judged by the reference decoder.",
+   design_ref="DESIGN.md section 7a (reader round trip) and section 7 C02",
+   note="Hypotheses of stream_decodes, all explicit: start offsets are running sums (proved for every header the parser model accepts, C13 "
+        "open_sound); the two points where the reference decoder is stricter than the reader (checksum field of an EMPTY dictionary entry all "
+        "zeros; declared length 0 implies no stored bytes) and digest sizes as the format gives them. unzck's glue and the header parse "
+        "(Header = Format.parse) are corresponded, not proved.",
+   technique="Lean 4 proof (loop invariant of the reader as a step machine, induction over iterations / calls / call sequences, refinement to the independent reference decoder) + differential correspondence against that decoder"),
  'C14': dict(
    text="Proof (Lean 4) on the model of zck_get_chunk_data / zck_get_chunk_comp_data: once the dictionary is loaded (or absent) a request's "
         "result and resulting context are identical whatever the previous offset, pending stored bytes, position in the previous chunk, "
@@ -123,15 +130,19 @@ CLAIMED = {
         "determinism (checked on real outputs, not proved). Termination of the re-examination loop is not proved.",
    technique="Lean 4 proof (accumulator/append lemmas over the per-byte chunker, induction over content) + differential correspondence and cross-run comparison"),
  'C01': dict(
-   text="Partial proof (Lean 4): for every legal configuration and every sequence of write/end-chunk calls (manual or automatic) the data "
-        "chunks of the closed file concatenate to exactly the bytes written (nothing lost - incl. a final chunk below the minimum -, "
-        "duplicated or reordered). The rest of the round trip (header creation, compression, validation, read-back under buffer-size "
-        "sequences) is exercised end to end: every WRITE case re-opens, validates and reads back the produced file; the zck/unzck tools are "
-        "run on inputs with the split string at every alignment around 32 KiB block edges, and the real tool's chunk structure is compared "
-        "with the Lean model of its split scanner.",
-   design_ref="DESIGN.md section 7 C01",
-   note="Partial: write-path termination and the scanner's byte-preservation are not theorems (fuel / evaluated per case); codec round trip assumed.",
-   technique="Lean 4 proof (accounting invariant over API calls, fuel-sufficiency for the manual split loop) + differential correspondence incl. real CLI tools"),
+   text="Proof (Lean 4) of both halves on the models, composition checked: WRITE side — for every legal configuration and every sequence of "
+        "write/end-chunk calls (manual or automatic) the data chunks of the closed file concatenate to exactly the bytes written (nothing "
+        "lost - incl. a final chunk below the minimum -, duplicated or reordered). READ side (Props/C01Stream.lean, read_back) — for every "
+        "well-formed file (running offsets, every index entry present / verified / of declared length, data checksum) and EVERY sequence of "
+        "read buffer sizes no read fails, the loop never runs out of fuel (explicit measure), every read returns what it reports and at most "
+        "what was asked, a short read has delivered exactly the contents of the data chunks in index order, and zck_close then succeeds. That "
+        "the file the writer produces is well-formed in that sense (header creation, compression) is exercised end to end: every WRITE case "
+        "re-opens, validates and reads back the produced file; the zck/unzck tools are run on inputs with the split string at every alignment "
+        "around 32 KiB block edges, and the real tool's chunk structure is compared with the Lean model of its split scanner.",
+   design_ref="DESIGN.md section 7a (reader round trip) and section 7 C01",
+   note="Partial: the link 'writer output is WF' (header_create / index serialisation round trip through the parser) is checked per case, not "
+        "proved; write-path termination of the automatic chunker and the scanner's byte-preservation are not theorems; codec round trip assumed.",
+   technique="Lean 4 proof (accounting invariant over write calls; reader loop invariant + termination measure over all read schedules) + differential correspondence incl. real CLI tools"),
  'C03': dict(
    text="PARTIAL proof (Lean 4): the model of the header/index parser (read_lead, read_header_from_file, read_preface incl. the "
         "optional-element loop, read_index/index_read, read_sig) performs no read outside the header buffer for EVERY byte string and pin "
